@@ -723,95 +723,127 @@ func handledelim(t json.Token, dec *json.Decoder) (res interface{}, err error) {
 func (r *row) GetString(key string) string {
 	result, _ := cast.ToString(r.GetOrNil(key))
 
-	return result.(string)
+	v, _ := result.(string)
+
+	return v
 }
 
 func (r *row) GetInt(key string) int {
 	result, _ := cast.ToInt(r.GetOrNil(key))
 
-	return result.(int)
+	v, _ := result.(int)
+
+	return v
 }
 
 func (r *row) GetInt64(key string) int64 {
 	result, _ := cast.ToInt64(r.GetOrNil(key))
 
-	return result.(int64)
+	v, _ := result.(int64)
+
+	return v
 }
 
 func (r *row) GetInt32(key string) int32 {
 	result, _ := cast.ToInt32(r.GetOrNil(key))
 
-	return result.(int32)
+	v, _ := result.(int32)
+
+	return v
 }
 
 func (r *row) GetInt16(key string) int16 {
 	result, _ := cast.ToInt16(r.GetOrNil(key))
 
-	return result.(int16)
+	v, _ := result.(int16)
+
+	return v
 }
 
 func (r *row) GetInt8(key string) int8 {
 	result, _ := cast.ToInt8(r.GetOrNil(key))
 
-	return result.(int8)
+	v, _ := result.(int8)
+
+	return v
 }
 
 func (r *row) GetUint(key string) uint {
 	result, _ := cast.ToUint(r.GetOrNil(key))
 
-	return result.(uint)
+	v, _ := result.(uint)
+
+	return v
 }
 
 func (r *row) GetUint64(key string) uint64 {
 	result, _ := cast.ToUint64(r.GetOrNil(key))
 
-	return result.(uint64)
+	v, _ := result.(uint64)
+
+	return v
 }
 
 func (r *row) GetUint32(key string) uint32 {
 	result, _ := cast.ToUint32(r.GetOrNil(key))
 
-	return result.(uint32)
+	v, _ := result.(uint32)
+
+	return v
 }
 
 func (r *row) GetUint16(key string) uint16 {
 	result, _ := cast.ToUint16(r.GetOrNil(key))
 
-	return result.(uint16)
+	v, _ := result.(uint16)
+
+	return v
 }
 
 func (r *row) GetUint8(key string) uint8 {
 	result, _ := cast.ToUint8(r.GetOrNil(key))
 
-	return result.(uint8)
+	v, _ := result.(uint8)
+
+	return v
 }
 
 func (r *row) GetFloat64(key string) float64 {
 	result, _ := cast.ToFloat64(r.GetOrNil(key))
 
-	return result.(float64)
+	v, _ := result.(float64)
+
+	return v
 }
 
 func (r *row) GetFloat32(key string) float32 {
 	result, _ := cast.ToFloat32(r.GetOrNil(key))
 
-	return result.(float32)
+	v, _ := result.(float32)
+
+	return v
 }
 
 func (r *row) GetBool(key string) bool {
 	result, _ := cast.ToBool(r.GetOrNil(key))
 
-	return result.(bool)
+	v, _ := result.(bool)
+
+	return v
 }
 
 func (r *row) GetBytes(key string) []byte {
 	result, _ := cast.ToBinary(r.GetOrNil(key))
 
-	return result.([]byte)
+	v, _ := result.([]byte)
+
+	return v
 }
 
 func (r *row) GetTime(key string) time.Time {
 	result, _ := cast.ToTime(r.GetOrNil(key))
 
-	return result.(time.Time)
+	v, _ := result.(time.Time)
+
+	return v
 }
